@@ -154,6 +154,10 @@ class ActionContext(abc.ABC):
         if self.location_action.condition is None or len(self.location_action.condition.strip()) == 0:
             return True
         result = self.trigger_context.evaluate_expression(self.location_action.condition)
+        if isinstance(result, BaseException):
+            # the condition could not be evaluated (evaluate_expression hands back what was raised): the hit
+            # is rejected, whatever the text of the error is
+            return False
         return str2bool(str(result))
 
 
